@@ -102,6 +102,11 @@ def owners(groups):
         for x in group:
             back[x] = i
     return back
+
+def positions(op, mask):
+    for q in op.qubits:
+        mask[q.x] = 1
+    return mask
 '''
     good = '''
 def make(a, opt=None):
@@ -159,10 +164,17 @@ def owners(groups):
         for x in group:
             back.setdefault(x, []).append(i)
     return back
+
+def positions(op, mask):
+    for q in op.qubits:
+        if q.x < 0:
+            raise ValueError(q)
+        mask[q.x] = 1
+    return mask
 '''
     rel = 'cirq-core/cirq/work/zz_fixture.py'
     base = core.Repo()
-    for src, want in ((bad, {'z_fwd': 1, 'z_drop': 1, 'z_pair': 2, 'z_get': 1, 'z_ctor': 1, 'z_opt': 1, 'z_gen': 1, 'z_memo': 1, 'z_first': 1, 'z_inv': 1}), (good, {})):
+    for src, want in ((bad, {'z_fwd': 1, 'z_drop': 1, 'z_pair': 2, 'z_get': 1, 'z_ctor': 1, 'z_opt': 1, 'z_gen': 1, 'z_memo': 1, 'z_first': 1, 'z_inv': 1, 'z_coord': 1}), (good, {})):
         r = core.Repo(overlay={rel: src}, base=base)
         ctx = report.Ctx('C18', 'quick', r)
         general.apply(ctx, 'C18')
